@@ -64,6 +64,7 @@ func (Area) Name() string { return "c10" }
 const (
 	mimeJSON = "application/json"
 	mimePB   = "application/x-test-pb"
+	mimeSSE  = "text/event-stream"
 )
 
 var (
@@ -754,6 +755,9 @@ func execE2E(sc *scenario) string {
 	dm := "-"
 	if res.StatusCode == 200 && (ct == mimeJSON || ct == mimePB) {
 		dm = decodeMessages(sc, ct, body, sse)
+	} else if res.StatusCode == 200 && ct == mimeSSE {
+		// events carry the values in the encoding of the only streamable marshaler (JSON)
+		dm = decodeMessages(sc, mimeJSON, body, sse)
 	}
 	rec.mu.Lock()
 	nat := "-"
@@ -1048,6 +1052,16 @@ func (Area) Gen(r *rand.Rand, tier string, emit func(string)) {
 			emit(line{rpc: "s", inj: "none", ct: cc.ct, acc: cc.acc, n: n, ra: "sn", rb: "so", md: stdMD}.String())
 			emit(line{rpc: "s", inj: "target", err: sErr(14, "stream broke", "u"), ct: cc.ct, acc: cc.acc, n: n, ra: "sn", rb: "so", md: stdMD}.String())
 			count("e2e.stream")
+		}
+		// server streaming that fails before its first message, all 17 codes x encodable / unencodable details
+		// (for the SSE combination: the status is one plain document in the marshaler's type, not an event)
+		for code := 0; code <= 16; code++ {
+			for _, det := range []string{"-", "r", "u"} {
+				for _, origin := range []string{"decode", "create", "target"} {
+					emit(line{rpc: "s", inj: origin, err: sErr(code, "stream failed early", det), ct: cc.ct, acc: cc.acc, n: 0, md: stdMD}.String())
+					count("e2e.stream-early-error")
+				}
+			}
 		}
 		// client gone: 499 without a body, whatever the error is
 		for _, origin := range injOrigins {
